@@ -1744,3 +1744,24 @@ Proof.
     apply dec_outgoing_some in E1. destruct E1 as (-> & _).
     apply dec_current_some in E2. destruct E2 as (-> & _). reflexivity.
 Qed.
+
+(** * The hypotheses checked on every recorded history *)
+
+Lemma env_wf_b_sound e : env_wf_b e = true -> env_wf e.
+Proof.
+  unfold env_wf_b, env_wf. intros H. apply andb_prop in H. destruct H as [H1 H2]. split; [exact H1|].
+  intros d a Ha. rewrite forallb_forall in H2.
+  assert (Hin : In a (e_assets e)).
+  { clear H2. induction (e_assets e) as [|b r IH]; cbn [find_asset] in Ha; [discriminate|].
+    destruct (Nat.eqb (a_denom b) d); [inversion Ha; subst; left; reflexivity|right; apply IH; exact Ha]. }
+  apply H2 in Hin. apply Z.leb_le in Hin. exact Hin.
+Qed.
+
+Lemma op_ok_b_sound e s o : op_ok_b e s o = true -> op_ok e o /\ op_mono s o.
+Proof.
+  destruct o as [h ts span sender recip soc coins cross|from i secret|from i|h t]; cbn [op_ok_b op_ok op_mono]; intros H.
+  - split; [|exact I]. destruct (Nat.eqb_spec sender (e_mod e)); [discriminate|assumption].
+  - split; exact I.
+  - split; exact I.
+  - split; [exact I|]. apply Z.leb_le. exact H.
+Qed.
